@@ -594,7 +594,7 @@ fn main() {
     ];
     sweep_ints(&mut ctx);
     sweep_decoder(&mut ctx);
-    let n = ctx.volume(12_000, 600_000, 40, 3_000);
+    let n = ctx.volume(40_000, 600_000, 40, 3_000);
     ctx.arm("packer-seq", 900.0);
     ctx.run_cases("packer-seq", n, |ctx, _idx, rng| packer_case(ctx, rng));
     ctx.run_cases("demo-finish", n / 4 + 10, |ctx, _idx, rng| demo_case(ctx, rng));
